@@ -38,6 +38,9 @@ def h_name_roundtrip(shape: str):
             hx = c.ghost["uuid"]["hex"]
             h.ensure("NAME-RT:generated-name-is-v<version>-<fresh-8-hex>.metadata.json",
                      nz == z3.Concat(z3.StringVal("v"), z3.IntToStr(v.z), z3.StringVal("-"), z3.SubString(hx[0], 0, 8), z3.StringVal(".metadata.json")) if hx else z3.BoolVal(False))
+            h.ensure("NAME:the-token-is-drawn-fresh-for-this-call(one-uuid4)", len(hx) == 1)
+            if shape == "generated" and h.ctx.ghost.get("name_only"):
+                return
             text, want = nz, nz
         elif shape == "legacy-name":
             text = z3.Concat(z3.StringVal("v"), z3.IntToStr(v.z), z3.StringVal(".metadata.json"))
@@ -71,6 +74,14 @@ def h_verify_checksum(h: H):
                  pyops.bool_z(pyops.truth(val)) == (SHA(data.z) == exp.z))
 
 
+def h_new_metadata_filename(h: H):
+    """NAME: _new_metadata_filename(v) = 'v' + str(v) + '-' + first 8 hex digits of a uuid4 drawn in this call + '.metadata.json'
+    (the callee contract the commit-path units apply: a name of version v carrying a fresh token).  The parse round trip
+    (NAME-RT) stays a bounded stand-in."""
+    h.ctx.ghost["name_only"] = True
+    return h_name_roundtrip("generated")(h)
+
+
 def h_compute_checksum(h: H):
     """CHECKSUM: compute_checksum feeds exactly the given bytes, once, to the requested hash and returns its hex digest (T-hash:
     hashlib.new(alg) / update / hexdigest = digest of the concatenation of the updates); unsupported algorithm => ValueError."""
@@ -102,6 +113,61 @@ def h_compute_checksum(h: H):
         want_alg = z3.StringVal("sha256") if default_alg else alg.z
         h.ensure("CHECKSUM:digest-of-exactly-the-given-bytes-under-the-requested-algorithm(sha256-by-default)",
                  pyops.str_z(val) == H_(want_alg, data.z))
+
+
+def h_compute_file_checksum(h: H):
+    """CHECKSUM (file): compute_file_checksum feeds the file's bytes in order, each exactly once, to the hash (loop invariant:
+    what has been fed so far is the prefix of the content up to the read position; read(n) returns between 1 and n bytes, or
+    none exactly at end of file) and returns the digest of the whole content."""
+    c = h.ctx
+    H_ = z3.Function("hashlib.hexdigest", STR, STR, STR)
+    content = z3.String("file_content")
+    st = {"hasher": None, "file": None}
+
+    def new(I, a, k):
+        st["hasher"] = TheoryObj("hasher", fields={"alg": pyops.str_z(I.force(a[0])), "acc": z3.StringVal("")})
+        return st["hasher"]
+
+    def update(I, o, a, k):
+        o.fields["acc"] = z3.Concat(o.fields["acc"], pyops.str_z(I.force(a[0])))
+        return None
+    h.reg.modfuncs["hashlib.new"] = new
+    h.reg.theory_methods[("hasher", "update")] = update
+    h.reg.theory_methods[("hasher", "hexdigest")] = lambda I, o, a, k: SStr(H_(o.fields["alg"], o.fields["acc"]))
+    from pyvc.values import Builtin
+
+    def py_open(I, a, k):
+        st["file"] = TheoryObj("cfile", fields={"pos": z3.IntVal(0), "mode": a[1] if len(a) > 1 else k.get("mode", "r")})
+        return st["file"]
+    h.reg.builtins["open"] = Builtin("open", py_open)
+    T = h.reg.theory_methods
+    T[("cfile", "__enter__")] = lambda I, o, a, k: o
+    T[("cfile", "__exit__")] = lambda I, o, a, k: None
+
+    def f_read(I, o, a, k):
+        n = pyops.int_z(I.force(a[0]))
+        got = I.ctx.fresh_int("bytes_read")
+        pos = o.fields["pos"]
+        rest = z3.Length(content) - pos
+        I.ctx.assume(z3.And(got >= 0, got <= n, got <= rest, z3.Implies(z3.And(rest > 0, n > 0), got > 0)), "T-os: read(n)")
+        o.fields["pos"] = pos + got
+        return SBytes(z3.SubString(content, pos, got))
+    T[("cfile", "read")] = f_read
+
+    def inv(I, env, it):
+        f, hs = st["file"], st["hasher"]
+        return [("CHECKSUM:inv:fed-so-far-is-the-prefix-up-to-the-read-position",
+                 z3.And(f.fields["pos"] >= 0, f.fields["pos"] <= z3.Length(content), hs.fields["acc"] == z3.SubString(content, 0, f.fields["pos"])))]
+
+    def havoc(I, env, it):
+        st["file"].fields["pos"] = I.ctx.fresh_int("pos")
+        st["hasher"].fields["acc"] = I.ctx.fresh_str("fed")
+    h.reg.loops["integrity:IntegrityChecker.compute_file_checksum"] = {"*": LoopSpec(invariant=inv, havoc=havoc, name="chunks", skip=["chunk", "hasher", "f"])}
+    out, val = h.run("integrity:IntegrityChecker.compute_file_checksum", [h.str("file_path")])
+    h.ensure("CHECKSUM:file:never-raises-on-a-readable-file", out == "ok", detail=repr(val) if out != "ok" else "")
+    if out == "ok":
+        h.ensure("CHECKSUM:file:opened-for-binary-reading", st["file"] is not None and st["file"].fields["mode"] == "rb")
+        h.ensure("CHECKSUM:file:digest-of-the-whole-content(sha256)", pyops.str_z(val) == H_(z3.StringVal("sha256"), content))
 
 
 # ----------------------------------------------------------------------------------------------- metadata file wrappers
@@ -337,11 +403,13 @@ UNITS = {
     "COUNT/recorded_manifest_count": (h_recorded_manifest_count, ["file_manager:recorded_manifest_count"]),
     "COUNT/expected_entry_count": (h_expected_entry_count, [f"{FM}:FileManager.expected_entry_count"]),
     "COUNT/_check_count": (h_check_count, [f"{FM}:FileManager._check_count"]),
+    "NAME/_new_metadata_filename": (h_new_metadata_filename, [f"{MM}:MetadataManager._new_metadata_filename"]),
     "NAME-RT/generated-name": (h_name_roundtrip("generated"), [f"{MM}:MetadataManager._new_metadata_filename", f"{MM}:MetadataManager._parse_hint_content"]),
     "NAME-RT/legacy-name": (h_name_roundtrip("legacy-name"), [f"{MM}:MetadataManager._parse_hint_content"]),
     "NAME-RT/bare-number": (h_name_roundtrip("bare-number"), [f"{MM}:MetadataManager._parse_hint_content"]),
     "HELPER/verify_checksum": (h_verify_checksum, ["integrity:IntegrityChecker.verify_checksum"]),
     "HELPER/compute_checksum": (h_compute_checksum, ["integrity:IntegrityChecker.compute_checksum"]),
+    "HELPER/compute_file_checksum": (h_compute_file_checksum, ["integrity:IntegrityChecker.compute_file_checksum"]),
     "HELPER/metadata-file-io": (h_metadata_file_io, [f"{MM}:MetadataManager._write_metadata_file", f"{MM}:MetadataManager._read_metadata_file"]),
     "HELPER/_deep_copy_metadata": (h_deep_copy, [f"{TX}:Transaction._deep_copy_metadata"]),
     "HELPER/validate_data_files": (h_validate_data_files, [f"{FM}:FileManager.validate_data_files"]),
